@@ -170,7 +170,13 @@ fn c01_owns(d: &Disc, out: &StepOut, _t: &Trace) -> bool {
     let target = l.get(2).cloned().unwrap_or_default();
     let observed = recipients(out, &l[1], &target);
     match out.exp.send_targets.iter().find(|(t, _, _)| *t == target) {
-        Some((_, true, _)) => observed > 0,  // accepted by the model: wrong/duplicate/missing copies
+        // accepted by the model: wrong / duplicate / missing copies.  If nobody got anything it is a
+        // disagreement about acceptance (C10) when the sender was told so with an error numeric for
+        // that target - and a silently lost message (ours) when it was told nothing
+        Some((_, true, _)) => {
+            observed > 0
+                || !out.actor.and_then(|a| out.obs.get(&a)).map_or(false, |ls| ls.iter().any(|x| x[0] == "S" && x[1].starts_with('4') && x.iter().skip(2).any(|y| *y == target)))
+        }
         Some((_, false, _)) => false,       // model refuses, server delivers: acceptance (C10)
         None => true,                       // a copy for a target that was never addressed
     }
